@@ -158,16 +158,20 @@ fn image<C: Cm>(case: &ImgCase) -> PResult {
         }
         None => fail!(format!("from_raw_roundtrip_none/{n_}"), "from_raw({n}, into_raw()) returned None for a sequence produced by `{kind}` ({} words)", raw.len()),
     }
-    let mut counts: Vec<usize> = if cap + 2 <= 70 { (0..=cap + 2).collect() } else { vec![0, 1, n.saturating_sub(1), n, n + 1, cap.saturating_sub(1), cap, cap + 1, cap + 2, cap + 64 / bits, raw.len() * 64 - 1, raw.len() * 64, raw.len() * 64 + 1] };
+    let mut counts: Vec<usize> = if n > 1500 {
+        vec![0, n - 1, n, n + 1, cap, cap + 1]
+    } else if cap + 2 <= 70 { (0..=cap + 2).collect() } else { vec![0, 1, n.saturating_sub(1), n, n + 1, cap.saturating_sub(1), cap, cap + 1, cap + 2, cap + 64 / bits, raw.len() * 64 - 1, raw.len() * 64, raw.len() * 64 + 1] };
     for c in &case.counts {
         counts.push(scale16(*c, cap + 2));
     }
+    // counts whose bit length does not fit in usize must be refused, not wrapped
+    counts.extend([usize::MAX, usize::MAX - 1, 1usize << 63, (1usize << 63) + 1, 1usize << 62, 1usize << 61, usize::MAX / bits, (usize::MAX / bits).saturating_add(1), (usize::MAX / bits / 2 + 1).saturating_mul(3), 1usize << 60, (1usize << 58) + 1]);
     counts.sort();
     counts.dedup();
     let mut refused = 0;
     for c in counts {
         let r = no_panic(&format!("from_raw_panic/{n_}"), &format!("from_raw({c}, {} words)", raw.len()), || Seq::<C>::from_raw(c, &raw))?;
-        if c * bits <= raw.len() * 64 {
+        if c.checked_mul(bits).map_or(false, |b| b <= raw.len() * 64) {
             match r {
                 Some(s) => {
                     ensure_eq!(s.len(), c, format!("from_raw_len/{n_}"), "from_raw({c}, {} words).len()", raw.len());
@@ -273,6 +277,10 @@ pub fn run(ctx: &mut Ctx) {
         let cases = ctx.cases(1200, 10);
         let st = (gen::owned_spec(id, max), vec(any::<u16>(), 0..4)).prop_map(move |(s, counts)| ImgCase { codec: id, s, counts });
         ctx.forall(&format!("word_image/{}", id.name()), cases, st, image_dispatch);
+        let th = ctx.thorough();
+        let cases = ctx.cases(5, 8);
+        let st = gen::owned_spec_long(id, th).prop_map(move |s| ImgCase { codec: id, s, counts: vec![] });
+        ctx.forall(&format!("word_image_long/{}", id.name()), cases, st, image_dispatch);
         let cases = ctx.cases(300, 10);
         let st = vec(prop_oneof![3 => any::<u64>(), 1 => Just(0u64), 1 => Just(u64::MAX)], 0..=4).prop_map(move |words| RawCase { codec: id, words });
         ctx.forall(&format!("arbitrary_image/{}", id.name()), cases, st, raw_dispatch);
@@ -285,7 +293,7 @@ pub fn run(ctx: &mut Ctx) {
             if ks.is_empty() {
                 continue;
             }
-            let cases = ctx.cases((ks.len() * 25) as u32, 20);
+            let cases = ctx.cases((ks.len() * 60) as u32, 10);
             let s = (select(ks), prop_oneof![4 => any::<(u64, u64)>(), 1 => Just((0u64, 0u64)), 1 => Just((u64::MAX, u64::MAX)), 1 => (0..70u32).prop_map(|b| if b < 64 { (0, 1u64 << b) } else { (1u64 << (b - 64), 0) })]).prop_map(move |(k, value)| KCase { codec: id, st, k, value });
             ctx.forall(&format!("kmer_int/{}/{}", id.name(), st.name()), cases, s, kmer_int);
         }
